@@ -691,7 +691,7 @@ class State:
                 pos.append((Aff.sym(d) - lo, 1))
             if hi < INF:
                 neg.append((Aff.const(hi) - Aff.sym(d), 1))
-            if len(pos) * len(neg) <= 24:
+            if len(pos) * len(neg) <= 400:
                 for fp, kp in pos:
                     for fn, kn in neg:
                         c = fp.scale(kn) + fn.scale(kp)
